@@ -55,8 +55,11 @@ type baseTrafficShapingController struct {
 }
 
 func newBaseTrafficShapingControllerWithMetric(r *Rule, metric *ParamsMetric) *baseTrafficShapingController {
-	if r.SpecificItems == nil {
-		r.SpecificItems = make(map[interface{}]int64)
+	// Do not write the empty map back into the caller's rule: the rule manager caches the raw
+	// rules to detect identical reloads.
+	specificItems := r.SpecificItems
+	if specificItems == nil {
+		specificItems = make(map[interface{}]int64)
 	}
 	return &baseTrafficShapingController{
 		r:             r,
@@ -65,7 +68,7 @@ func newBaseTrafficShapingControllerWithMetric(r *Rule, metric *ParamsMetric) *b
 		paramIndex:    r.ParamIndex,
 		paramKey:      r.ParamKey,
 		threshold:     r.Threshold,
-		specificItems: r.SpecificItems,
+		specificItems: specificItems,
 		durationInSec: r.DurationInSec,
 		metric:        metric,
 	}
